@@ -2,20 +2,29 @@ use serde_json::Value;
 
 use crate::report::{Ctx, Report, Violation};
 
-pub mod c01;
-
-pub const ALL: &[&str] = &["C01"];
-
-pub fn run(ctx: &Ctx) -> Option<Report> {
-    Some(match ctx.id.as_str() {
-        "C01" => c01::run(ctx),
-        _ => return None,
-    })
+macro_rules! props {
+    ($( $id:literal => $m:ident ),* $(,)?) => {
+        $( pub mod $m; )*
+        pub const ALL: &[&str] = &[$($id),*];
+        pub fn run(ctx: &Ctx) -> Option<Report> {
+            Some(match ctx.id.as_str() {
+                $( $id => $m::run(ctx), )*
+                _ => return None,
+            })
+        }
+        pub fn replay(ctx: &Ctx, case: &Value) -> Result<Vec<Violation>, String> {
+            match ctx.id.as_str() {
+                $( $id => $m::replay(ctx, case), )*
+                _ => Err(format!("no replayer for {}", ctx.id)),
+            }
+        }
+    };
 }
 
-pub fn replay(ctx: &Ctx, case: &Value) -> Result<Vec<Violation>, String> {
-    match ctx.id.as_str() {
-        "C01" => c01::replay(ctx, case),
-        _ => Err(format!("no replayer for {}", ctx.id)),
-    }
+props! {
+    "C01" => c01,
+    "C02" => c02,
+    "C03" => c03,
+    "C04" => c04,
+    "C05" => c05,
 }
